@@ -263,7 +263,12 @@ func (b *c15HTTPBackend) handleCommands(wrt http.ResponseWriter, text string, ra
 		// the script moves on before the answer leaves: the next exchange meets the next behaviour
 		hook()
 	}
+	reqNo := b.reqNo
 	answerText := func(txt string) {
+		if raw && txt == "" && reqNo%2 == 0 {
+			// an accepted batch is answered with an empty body as well as with an empty line (both seen from Thruk)
+			return
+		}
 		if raw {
 			_, _ = io.WriteString(wrt, txt+"\n")
 		} else {
